@@ -61,8 +61,9 @@ func loadLibs(r *rt.Runtime) func() {
 // cpuLimit bounds a run in the configurations that account CPU (everything
 // except noquotas): a diverging program shows as status "killed".  The check
 // does not send a program to the noquotas runner when the default runner
-// reported "killed".
-const cpuLimit = 5000000
+// reported "killed".  The most expensive terminating corpus program (a
+// template at d=201) uses 8e4 units, progfam programs use less than 2e4.
+const cpuLimit = 1000000
 
 type req struct {
 	Src  string   `json:"src"`
@@ -79,6 +80,8 @@ type resp struct {
 	// Hello reply
 	Quotas    *bool `json:"quotas,omitempty"`
 	Goroutine int   `json:"goroutines,omitempty"`
+	// development aid (C14_SHOWCPU=1): CPU units used, to size cpuLimit
+	CPU uint64 `json:"cpu,omitempty"`
 }
 
 func parseArg(s string) (rt.Value, error) {
@@ -100,6 +103,8 @@ func parseArg(s string) (rt.Value, error) {
 	}
 	return rt.NilValue, fmt.Errorf("bad argument %q", s)
 }
+
+var showCPU = os.Getenv("C14_SHOWCPU") != ""
 
 func runOne(q *req) (r resp) {
 	var args []rt.Value
@@ -129,6 +134,9 @@ func runOne(q *req) (r resp) {
 		cleanup()
 	}()
 	r = resp{Status: o.Status, Results: o.Results, Err: o.Err, Trace: m.Trace}
+	if showCPU {
+		r.CPU = o.UsedCPU
+	}
 	if r.Results == nil {
 		r.Results = []string{}
 	}
